@@ -60,7 +60,7 @@ theorem body_layout (b : Body) (h : b.emitter.length = 32) :
 theorem sol_body_offsets : Whv.Gen.C04.solBody = bodyLayout := by decide
 
 /-- … and every body field the Ralph parser reads sits at the model's offset with the model's width. -/
-theorem ral_body_offsets : ∀ e ∈ Whv.Gen.C04.ralBody, e ∈ bodyLayout := by decide
+theorem ral_body_offsets : (∀ e ∈ Whv.Gen.C04.ralBody, e ∈ bodyLayout) ∧ Whv.Gen.C04.ralConvMismatch = 0 := by decide
 
 /-- Header and signature records: 1 + 4 + 1 bytes, then 66-byte records (index ‖ 65-byte signature), in all three. -/
 theorem header_offsets :
